@@ -8,11 +8,14 @@ META = {
     "engine": "kcp",
     "technique": "Coq invariant proof over all event lists of a two-endpoint system with monotone wire history (sender ghost numbering + receiver ghost, composed) + differential replay + prefix oracle",
     "level_text": "Machine-checked for the raw endpoints: for every finite list of events (arbitrary API calls with arbitrary arguments and clock values on both sides; the reader's Input fed any datagram the writer emitted earlier, any number of times, in any order, or never; the writer's Input fed anything) the bytes (stream mode) resp. messages with their boundaries (message mode) returned by Recv are a prefix of what Send accepted, provided fewer than 2^31-2^16 segments were numbered; every datagram ever emitted carries under each sequence number the payload that number was given (retransmissions included); re-feeding any genuine datagram (duplicate, FEC-recovered) keeps the receiver invariant. Tied to kcp.go by replaying lossy/duplicating/reordering histories of two real cores in the extracted model and by a prefix oracle after every Recv, incl. all fate assignments for the first K datagrams.",
-    "level_note": K.TRUST + " The session glue (WriteBuffers chunking at mss, Read carry-over) is modelled in coq/sess and composed with the raw-endpoint theorem (c01_session_prefix: bytes returned by the reader session's reads are a prefix of the bytes accepted by the writer session's writes, for every run); cipher/FEC transparency is composed with the raw-endpoint theorem in coq/pipe (Cpipe.v): every run of the session system - writer core + postProcess (FEC stage, nonce, CRC/Encrypt or AEAD) -> wire history -> packetInput/kcpInput + reader core, the wire delivering any earlier datagram any number of times in any order - projects to a run of the two-core system, so the prefix theorems hold for sessions of every cipher class (premises: the cipher laws Decrypt(Encrypt b) = b resp. Open(Seal p) = p, nonces of the right size, no_wrap), with FEC off, and with FEC on relative to the decoder hypothesis dec_sound (recovered shards are payloads of data packets the writer emitted - what c07_only_originals_rs provides for the fec engine's decoder; the bridge between the two encoder models is not formalised); interleavings with library goroutines are serialised by the session mutex (C14).",
+    "level_note": K.TRUST + " The session glue (WriteBuffers chunking at mss, Read carry-over) is modelled in coq/sess and composed with the raw-endpoint theorem (c01_session_prefix: bytes returned by the reader session's reads are a prefix of the bytes accepted by the writer session's writes, for every run); cipher/FEC transparency is composed with the raw-endpoint theorem in coq/pipe (Cpipe.v): every run of the session system - writer core + postProcess (FEC stage, nonce, CRC/Encrypt or AEAD) -> wire history -> packetInput/kcpInput + reader core, the wire delivering any earlier datagram any number of times in any order - projects to a run of the two-core system, so the prefix theorems hold for sessions of every cipher class (premises: the cipher laws Decrypt(Encrypt b) = b resp. Open(Seal p) = p, nonces of the right size, no_wrap), with FEC off, and with FEC on: generically relative to the decoder hypothesis dec_sound (recovered shards are payloads of data packets the writer emitted), and - Cpipe3.v - with NO decoder hypothesis for the fec engine's decoder model over the executable Reed-Solomon codec (pipe_fec_rs_dec_sound from c07_only_originals + c07_mds_rs_all; pipe_fec_rs_bridge: the packets frame's FEC stage emits are the genuine packets of the book the fec theorems quantify over, incl. unfinished groups, skipped parity and dropped long parity), for a fresh encoder/decoder pair of one ratio d/p; remaining premises: fec_no_wrap (FEC ids do not wrap within the run), fec_fits (core datagrams fit the FEC frame), OOB requests and auto-tuned decoders are not modelled; interleavings with library goroutines are serialised by the session mutex (C14).",
 }
 OBLIGATIONS = ["c01_stream_prefix", "c01_message_prefix", "c01_run_safe", "c01_wire_genuine", "c01_fec_idempotent"]
 PIPE_OBLIGATIONS = ["pipe_run_projects", "pipe_stream_prefix", "pipe_message_prefix", "pipe_run_safe", "pipe_step_enabled",
                     "pipe_fec_run_projects", "pipe_fec_stream_prefix", "pipe_fec_message_prefix", "pipe_fec_run_safe"]
+
+PIPE3_OBLIGATIONS = ["pipe_fec_rs_dec_sound", "pipe_fec_rs_bridge", "pipe_fec_rs_run_projects", "pipe_fec_rs_stream_prefix",
+                     "pipe_fec_rs_message_prefix", "pipe_fec_rs_run_safe"]
 
 RELEVANT = {"send-result", "recv-result", "input-result", "flush-result", "update-result", "sq", "rq", "rb", "rnxt", "sb", "una", "nxt"} | K.PANICS
 
@@ -23,6 +26,7 @@ def run(ctx):
     S.session_part(ctx, "C01")
     # the session pipeline is transparent: C01 lifted to sessions with every cipher class, FEC off / FEC on (abstract decoder)
     K.extra_statements(ctx, "pipe", "Cpipe.v", PIPE_OBLIGATIONS)
+    K.extra_statements(ctx, "pipe", "Cpipe3.v", PIPE3_OBLIGATIONS)
     U.run_parts(ctx, ["relay"])
     ctx.coverage["rule"] = ("all 4^K fate vectors (deliver/drop/duplicate/hold-behind-next) for the first K datagrams of a 4-message transfer in both modes, then a healed network; "
                             "random histories with 15-40 % loss, duplication, reordering, FEC-style non-regular re-delivery; prefix oracle after every Recv; "
